@@ -165,9 +165,54 @@ static void h_tagged_add(const vcase *c) {
     free(b);
 }
 
+/* tagged_keys a a0 b : the key for value a as produced by EVERY writer of the
+ * tagged family — Put64, PutVarint32 (a < 2^32), Put64FixedWidth and the
+ * Quick macro at the natural width, and the in-place add helper starting from
+ * the stored value a0 (both below 2^63) — each compared with memcmp against
+ * the plain Put64 key of b.  Keys of one value must be the same bytes whoever
+ * wrote them, or composite keys written by different code paths mis-sort. */
+static int key_cmp(const uint8_t *ka, size_t la, const uint8_t *kb, size_t lb) {
+    size_t m = la < lb ? la : lb;
+    int r = memcmp(ka, kb, m);
+    if (r == 0) r = (la > lb) - (la < lb);
+    return sgn(r);
+}
+static void h_tagged_keys(const vcase *c) {
+    uint64_t a = arg_u64(c, 0), a0 = arg_u64(c, 1), b = arg_u64(c, 2);
+    uint8_t kb[16], k[16];
+    memset(kb, 0, sizeof kb);
+    varintWidth wb = varintTaggedPut64(kb, b);
+    memset(k, 0, sizeof k);
+    varintWidth w = varintTaggedPut64(k, a);
+    out_hex("k64", k, w); out_i64("c64", key_cmp(k, w, kb, wb));
+    if (a <= UINT32_MAX) {
+        memset(k, 0, sizeof k);
+        w = varintTaggedPutVarint32(k, (uint32_t)a);
+        out_hex("k32", k, w <= 16 ? w : 16); out_i64("c32", key_cmp(k, w, kb, wb));
+    }
+    memset(k, 0, sizeof k);
+    w = varintTaggedPut64FixedWidth(k, a, varintTaggedLen(a));
+    out_hex("kfix", k, w <= 16 ? w : 16); out_i64("cfix", key_cmp(k, w, kb, wb));
+    memset(k, 0, sizeof k);
+    {
+        varintWidth nat = varintTaggedLen(a);
+        varintTaggedPut64FixedWidthQuick_(k, a, nat);
+        out_hex("kq", k, nat); out_i64("cq", key_cmp(k, nat, kb, wb));
+    }
+    if (a < (1ULL << 63) && a0 < (1ULL << 63)) {
+        memset(k, 0, sizeof k);
+        varintTaggedPut64(k, a0);
+        w = varintTaggedAddGrow(k, (int64_t)a - (int64_t)a0);
+        out_u64("wadd", w);
+        varintWidth l = varintTaggedGetLen(k);
+        out_hex("kadd", k, l); out_i64("cadd", key_cmp(k, l, kb, wb));
+    }
+}
+
 static const vreg tab[] = {
     {"tagged_rt", h_tagged_rt},       {"tagged_fixed", h_tagged_fixed},
     {"tagged_getn", h_tagged_getn},   {"tagged_cmp", h_tagged_cmp},
     {"tagged_tuple_cmp", h_tagged_tuple_cmp}, {"tagged_add", h_tagged_add},
+    {"tagged_keys", h_tagged_keys},
 };
 VREGISTER(tab)
